@@ -2,6 +2,7 @@
 import ast
 
 from .. import rx
+from .. import normalize, paths
 from ..core import AnalysisError, norm, walk_no_nested
 from ..flow import Aff, Facts, cmp_to_constraints
 
@@ -27,29 +28,76 @@ CLS = M + ':NativeVersion'
 # ---------------------------------------------------------------------------------------------------
 # R1 operator table
 
+FLIP = {ast.Lt: ast.Gt, ast.Gt: ast.Lt, ast.LtE: ast.GtE, ast.GtE: ast.LtE, ast.Eq: ast.Eq, ast.NotEq: ast.NotEq}
+NEG = {ast.Lt: ast.GtE, ast.Gt: ast.LtE, ast.LtE: ast.Gt, ast.GtE: ast.Lt, ast.Eq: ast.NotEq, ast.NotEq: ast.Eq}
+
+
+def _rel(t, left, right):
+    """operator class of the comparison `t` read as  <left> OP <right>  (operands may be swapped, `not` folded)"""
+    neg = False
+    while isinstance(t, ast.UnaryOp) and isinstance(t.op, ast.Not):
+        neg = not neg
+        t = t.operand
+    if not (isinstance(t, ast.Compare) and len(t.ops) == 1 and type(t.ops[0]) in FLIP):
+        return None
+    l, r = norm(t.left), norm(t.comparators[0])
+    op = type(t.ops[0])
+    if (l, r) == (right, left):
+        op = FLIP[op]
+    elif (l, r) != (left, right):
+        return None
+    return NEG[op] if neg else op
+
+
 def r1_operators(rep, src):
     ops = {'__lt__': ast.Lt, '__le__': ast.LtE, '__eq__': ast.Eq, '__ne__': ast.NotEq, '__ge__': ast.GtE, '__gt__': ast.Gt}
     for name, op in ops.items():
         f = src.func(M + ':BaseVersion.' + name)
         rep.saw_func(f)
-        body = [s for s in f.node.body if not (isinstance(s, ast.Expr) and isinstance(s.value, ast.Constant))]
         other = f.params()[1]
-        ok = len(body) == 1 and isinstance(body[0], ast.Return) and isinstance(body[0].value, ast.Compare) and len(body[0].value.ops) == 1 \
-            and isinstance(body[0].value.ops[0], op) and norm(body[0].value.left) == 'self._compare(%s)' % other \
-            and norm(body[0].value.comparators[0]) == '0'
-        if ok:
+        fnode, _ = normalize.inline_helpers(f, skip=('_compare',))
+        ps = [p_ for p_ in paths.function_paths(fnode) if p_.outcome[0] != 'raise']
+        got = set()
+        for p_ in ps:
+            v = p_.outcome[1] if p_.outcome[0] == 'return' else None
+            rel = _rel(v, 'self._compare(%s)' % other, '0') if v is not None and not p_.conds else None
+            got.add(rel)
+        if got == {op}:
             rep.ok('C03.R1', f.site, 'operator table', 'self._compare(other) %s 0' % name, nontrivial=False)
         else:
-            rep.fail('C03.R1', f.site, 'operator table', '%s is `%s`, expected `return self._compare(%s) <its own operator> 0`' % (name, norm(body[0])[:60] if body else '?', other),
-                     where=f.where)
+            rep.fail('C03.R1', f.site, 'operator table', '%s is not `self._compare(%s) <its own operator> 0` on every path' % (name, other), where=f.where)
     f = src.func(M + ':version_compare')
-    t = [norm(s) for s in f.node.body if not isinstance(s, ast.Expr)]
+    rep.saw_func(f)
     a, b = f.params()[:2]
-    want = ['va = Version(%s)' % a, 'vb = Version(%s)' % b, 'if va < vb:\n    return -1', 'if va > vb:\n    return 1', 'return 0']
-    if t == want:
-        rep.ok('C03.R1', f.site, 'version_compare', '-1 / 1 / 0 from < and >')
+    fnode, _ = normalize.inline_helpers(f)
+    L, R = 'Version(%s)' % a, 'Version(%s)' % b
+    bad = []
+    ps = paths.function_paths(fnode)
+    for p_ in ps:
+        if p_.outcome[0] != 'return' or not isinstance(p_.outcome[1], (ast.Constant, ast.UnaryOp)):
+            bad.append('a path does not return a constant')
+            continue
+        val = paths.Folder().value(p_.outcome[1])
+        facts = set()           # possible orderings left: subset of {'lt','eq','gt'}
+        poss = {'lt', 'eq', 'gt'}
+        for t, pol in p_.conds:
+            rel = _rel(t, L, R)
+            if rel is None:
+                bad.append('a condition is not a comparison of Version(a) with Version(b): %s' % norm(t)[:50])
+                continue
+            if not pol:
+                rel = NEG[rel]
+            poss &= {ast.Lt: {'lt'}, ast.Gt: {'gt'}, ast.LtE: {'lt', 'eq'}, ast.GtE: {'gt', 'eq'}, ast.Eq: {'eq'}, ast.NotEq: {'lt', 'gt'}}[rel]
+        want = {'lt': -1, 'eq': 0, 'gt': 1}
+        if not poss:
+            continue
+        if val is None or {want[x] for x in poss} != {val[1]}:
+            bad.append('returns %s when the versions compare as %s' % (norm(p_.outcome[1]), '/'.join(sorted(poss))))
+        _ = facts
+    if not bad and ps:
+        rep.ok('C03.R1', f.site, 'version_compare', '-1 / 1 / 0 from the comparison operators on (Version(a), Version(b)), %d paths' % len(ps))
     else:
-        rep.fail('C03.R1', f.site, 'version_compare', 'version_compare does not return -1/1/0 from the operators < and > on (a, b)', where=f.where)
+        rep.fail('C03.R1', f.site, 'version_compare', 'version_compare does not return -1/1/0 according to the operators on (a, b): %s' % '; '.join(sorted(set(bad))[:2]), where=f.where)
 
 
 # ---------------------------------------------------------------------------------------------------
@@ -309,7 +357,9 @@ def r2_compare(rep, src):
     rep.saw_func(f)
     hooks = CompareHooks(f)
     it = PathInterp(f.site, hooks)
-    body = list(f.node.body)
+    fnode, _ = normalize.inline_helpers(f)
+    fnode = normalize.unroll_const_loops(fnode)
+    body = list(fnode.body)
     # skip the conversion prologue (other is None / not a BaseVersion)
     start = 0
     for i, st in enumerate(body):
@@ -337,6 +387,9 @@ def r2_compare(rep, src):
                 stage['epoch-lt'] += 1
             elif payload == 1 and fx.entails(L - R - 1):
                 stage['epoch-gt'] += 1
+            elif payload == 0 and fx.entails(L - R) and fx.entails(R - L) \
+                    and {k[1][0][1] for k, v in marks.items() if k[0] == 'delegate-zero' and v is True} >= {'upstream_version', 'debian_revision'}:
+                stage['revision'] += 1     # equal epochs, both part comparisons returned zero
             elif payload == 0:
                 bad.append('a path returns 0 without consulting the upstream version and revision')
             else:
@@ -689,7 +742,28 @@ def r4_part_compare(rep, src):
         rep.fail('C03.R4', f.site, 'chunks come from re_all_digits_or_not.findall', 'the part comparison does not chunk with findall', where=f.where)
 
 
+CONSTS = [None]
+
+
 def fold_char_expr(e, var, ch):
+    look = CONSTS[0]
+    if look is not None and isinstance(e, (ast.Name, ast.Attribute)) and norm(e) != var:
+        v = look(norm(e))
+        if v is not None and isinstance(v[0], int) and not isinstance(v[0], bool):
+            return v[0]
+    if look is not None and isinstance(e, ast.Subscript) and isinstance(e.slice, ast.Name) and e.slice.id == var:
+        v = look(norm(e.value))
+        if v is not None and isinstance(v[0], (dict, str, list, tuple)):
+            try:
+                r = v[0][ch]
+            except (KeyError, IndexError, TypeError):
+                return None
+            return r if isinstance(r, int) and not isinstance(r, bool) else None
+    if look is not None and isinstance(e, ast.Call) and isinstance(e.func, ast.Attribute) and e.func.attr in ('index', 'find') \
+            and [norm(a) for a in e.args] == [var]:
+        v = look(norm(e.func.value))
+        if v is not None and isinstance(v[0], (str, list, tuple)):
+            return v[0].index(ch) if ch in v[0] else (-1 if e.func.attr == 'find' else None)
     """constant folding of an integer expression over one character: constants, ord(var), int(var), + - unary -"""
     if isinstance(e, ast.Constant) and isinstance(e.value, int):
         return e.value
@@ -715,33 +789,63 @@ def r3b_order_chain(rep, src):
     rep.saw_func(f)
     x = f.params()[1]
     alpha = rx.alphabet('str')
-    remaining = ((1 << 128) - 1)          # ASCII symbols still undecided
-    classes = []
-    for st in f.node.body:
-        if isinstance(st, ast.Expr) and isinstance(st.value, ast.Constant):
-            continue
-        if isinstance(st, ast.If) and len(st.body) == 1 and isinstance(st.body[0], ast.Return) and not st.orelse:
-            t = st.test
-            if isinstance(t, ast.Compare) and norm(t.left) == x and isinstance(t.ops[0], ast.Eq) and isinstance(t.comparators[0], ast.Constant):
-                m = 1 << alpha.idx[t.comparators[0].value]
-            elif isinstance(t, ast.Call) and norm(t.func).endswith('.match') and [norm(a) for a in t.args] == [x]:
-                rname = norm(t.func).split('.')[-2]
-                r = src.regex(M, rname, cls='NativeVersion')
-                L = rx.regex_lang(r['pattern'], r['flags'], 'match', alpha=alpha)
-                m = 0
-                for i in range(128):
-                    if L.accepts(alpha.syms[i]):
-                        m |= 1 << i
-            else:
-                raise AnalysisError('%s: branch condition outside the vocabulary: %s' % (f.site, norm(t)))
-            classes.append((m & remaining, st.body[0].value))
-            remaining &= ~m
-        elif isinstance(st, ast.Return):
-            classes.append((remaining, st.value))
-            remaining = 0
-        else:
-            raise AnalysisError('%s: statement outside the vocabulary: %s' % (f.site, norm(st)[:40]))
+    ASCII = (1 << 128) - 1
+    mod = src.mod(M)
+    lookup = paths.module_consts(mod, 'NativeVersion')
+    fnode, _ = normalize.inline_helpers(f)
 
+    def lit_mask(t):
+        """characters (ASCII) for which the literal is true"""
+        if isinstance(t, ast.Compare) and len(t.ops) == 1 and isinstance(t.ops[0], (ast.Eq, ast.NotEq, ast.In, ast.NotIn)):
+            l, r = t.left, t.comparators[0]
+            if norm(r) == x and isinstance(t.ops[0], (ast.Eq, ast.NotEq)):
+                l, r = r, l
+            if norm(l) == x:
+                cv = paths.Folder(lookup).value(r)
+                if cv is not None and isinstance(cv[1], (str, tuple, list, frozenset, set, dict)):
+                    members = [cv[1]] if isinstance(t.ops[0], (ast.Eq, ast.NotEq)) else list(cv[1])
+                    m = 0
+                    for c in members:
+                        if isinstance(c, str) and len(c) == 1 and c in alpha.idx and alpha.idx[c] < 128:
+                            m |= 1 << alpha.idx[c]
+                    return m if isinstance(t.ops[0], (ast.Eq, ast.In)) else ASCII & ~m
+        neg = False
+        e = t
+        if isinstance(t, ast.Compare) and len(t.ops) == 1 and isinstance(t.comparators[0], ast.Constant) and t.comparators[0].value is None \
+                and isinstance(t.ops[0], (ast.Is, ast.IsNot)):
+            neg = isinstance(t.ops[0], ast.Is)
+            e = t.left
+        if isinstance(e, ast.Call) and isinstance(e.func, ast.Attribute) and e.func.attr in ('match', 'fullmatch', 'search') and [norm(a) for a in e.args] == [x]:
+            rname = norm(e.func).split('.')[-2]
+            r = src.regex(M, rname, cls='NativeVersion')
+            L = rx.regex_lang(r['pattern'], r['flags'], e.func.attr, alpha=alpha)
+            m = 0
+            for i in range(128):
+                if L.accepts(alpha.syms[i]):
+                    m |= 1 << i
+            return ASCII & ~m if neg else m
+        if isinstance(e, ast.Call) and isinstance(e.func, ast.Attribute) and norm(e.func.value) == x and not e.args \
+                and e.func.attr in ('isdigit', 'isalpha', 'isalnum', 'isspace', 'isupper', 'islower'):
+            m = 0
+            for i in range(128):
+                if getattr(alpha.syms[i], e.func.attr)():
+                    m |= 1 << i
+            return m
+        raise AnalysisError('%s: branch condition outside the vocabulary: %s' % (f.site, norm(t)))
+    classes = []
+    for p_ in paths.function_paths(fnode, paths.Folder(lookup)):
+        m = ASCII
+        for t, pol in p_.conds:
+            lm = lit_mask(t)
+            m &= lm if pol else (ASCII & ~lm)
+        if not m:
+            continue
+        if p_.outcome[0] == 'raise':
+            continue
+        if p_.outcome[0] != 'return' or p_.outcome[1] is None:
+            raise AnalysisError('%s: a path does not return a value' % f.site)
+        classes.append((m, p_.outcome[1]))
+    CONSTS[0] = lookup
     def rng(expr, mask):
         """(min, max) of the returned value over the characters in mask"""
         vals = []
